@@ -92,12 +92,111 @@ impl Workload for Docs {
     }
 }
 
+/// The document as the command-line compiler writes it: a series of accepted programs, largest first, is
+/// compiled into the same target path of one workspace (a target is normally regenerated, not created); after
+/// each run the target's text must parse, be valid, and be the document the library builds for that program.
+pub struct CliTargets {
+    pub n: u64,
+}
+
+fn cli_series(seed: u64, idx: u64, st: &mut Stats) -> Vec<Sources> {
+    let mut v: Vec<(usize, Sources)> = Vec::new();
+    for k in 0..3u64 {
+        if let Some(c) = super::common::gen_wt_case(seed, "c03cli", idx * 3 + k, &crate::gen::wt::Cfg::default(), st) {
+            if let Outcome::Doc { yaml, .. } = pipeline::run(&c.sources, None) {
+                v.push((yaml.len(), c.sources));
+            }
+        }
+    }
+    v.sort_by(|a, b| b.0.cmp(&a.0));
+    v.into_iter().map(|x| x.1).collect()
+}
+
+fn check_cli_series(series: &[Sources], st: &mut Stats) -> Vec<Violation> {
+    use crate::drive::cli::{run_cli, write_sources, TempDir};
+    let dir = TempDir::new("c03cli");
+    for (k, src) in series.iter().enumerate() {
+        // a fresh source tree per run, the same target
+        for f in ["main.oal", "a.oal", "lib", "twin"] {
+            let p = dir.path.join(f);
+            let _ = std::fs::remove_file(&p);
+            let _ = std::fs::remove_dir_all(&p);
+        }
+        write_sources(&dir.path, src);
+        let r = run_cli(&dir.path, &src.files[0].0, "api.yaml", None);
+        st.inc("cli_runs");
+        if !r.success() {
+            st.inc("cli_failed_skipped");
+            continue;
+        }
+        if k > 0 {
+            st.inc("cli_targets_regenerated");
+        }
+        let text = std::fs::read_to_string(dir.path.join("api.yaml")).unwrap_or_default();
+        let got: Value = match serde_yaml::from_str(&text) {
+            Ok(v) => v,
+            Err(e) => {
+                return vec![Violation::new(
+                    "the target written by oal-cli does not parse as YAML",
+                    json!({"signature": "C03 cli-target-unparseable", "run": k, "error": e.to_string(), "sources": src.to_json()}),
+                )]
+            }
+        };
+        for p in validate(&got) {
+            if p.class != "duplicate-synthesised-operationId" {
+                return vec![Violation::new(
+                    "the target written by oal-cli is not closed / structurally valid",
+                    json!({"signature": format!("C03 cli-target {}", p.class), "run": k, "detail": p.detail, "sources": src.to_json()}),
+                )];
+            }
+        }
+        if let Outcome::Doc { json: want, .. } = pipeline::run(src, None) {
+            if let Some((ptr, _, _)) = first_diff(&canon(&got), &canon(&want)) {
+                return vec![Violation::new(
+                    "the target written by oal-cli is not the document built for the program",
+                    json!({"signature": "C03 cli-target-differs", "run": k, "pointer": ptr, "sources": src.to_json()}),
+                )];
+            }
+            st.inc("cli_targets_equal_to_library_document");
+        }
+    }
+    vec![]
+}
+
+impl Workload for CliTargets {
+    fn len(&self) -> u64 {
+        self.n
+    }
+    fn case_json(&self, seed: u64, idx: u64) -> Value {
+        let mut st = Stats::new();
+        json!({"series": cli_series(seed, idx, &mut st).iter().map(|s| s.to_json()).collect::<Vec<_>>()})
+    }
+    fn run(&self, seed: u64, idx: u64, st: &mut Stats) -> Vec<Violation> {
+        let series = cli_series(seed, idx, st);
+        if series.len() >= 2 {
+            st.nontrivial(hash64(&series.iter().map(|s| s.files.clone()).collect::<Vec<_>>()));
+        }
+        check_cli_series(&series, st)
+    }
+    fn run_json(&self, case: &Value, st: &mut Stats) -> Vec<Violation> {
+        let series: Vec<Sources> = case["series"].as_array().map(|a| a.iter().map(Sources::from_json).collect()).unwrap_or_default();
+        check_cli_series(&series, st)
+    }
+    fn chunk(&self) -> u64 {
+        10
+    }
+}
+
 pub fn run(ctx: &Ctx) -> i32 {
     let mut acc = Acc::new(ctx);
     let wl = Docs {
         n: if ctx.quick() { 100_000 } else { 3_000_000 },
     };
     acc.pool(&wl, "c03", false);
+    let ct = CliTargets {
+        n: if ctx.quick() { 150 } else { 3000 },
+    };
+    acc.pool(&ct, "c03cli", false);
     // Canary: a dangling $ref and a missing path parameter must be flagged.
     let bad = json!({"paths": {"/a/{x}": {"get": {"responses": {"700": {"description": ""}}, "operationId": "get-a-x"},
         "parameters": []}}, "components": {"schemas": {"a": {"$ref": "#/components/schemas/missing"}}}});
@@ -116,7 +215,7 @@ pub fn run(ctx: &Ctx) -> i32 {
     }
     acc.finish(
         "exploration",
-        "every document emitted for the exploration workload (G-wt programs, accepted kind-breaking/token/byte mutants, corpus), re-parsed from its YAML text and walked by an independent validator: $ref closure, path variables vs required path parameters, response key domain, operationId uniqueness, YAML round trip; non-trivial = document contains a $ref or a path parameter; distinct by source hash",
+        "every document emitted for the exploration workload (G-wt programs, accepted kind-breaking/token/byte mutants, corpus), re-parsed from its YAML text and walked by an independent validator: $ref closure, path variables vs required path parameters, response key domain, operationId uniqueness, YAML round trip; plus series of three accepted programs, largest first, compiled by the real oal-cli into one and the same target path, the target's text re-parsed, validated and compared with the library's document after every run; non-trivial = document contains a $ref or a path parameter; distinct by source hash",
         if ctx.quick() { 1000 } else { 10000 },
         false,
         &["serde_yaml's parser (YAML 1.2 core schema, as OpenAPI 3.0 prescribes) is trusted for the round trip",
